@@ -16,9 +16,9 @@ fn main() {
     let prop = Property {
         id: "C20",
         level: "exploration",
-        rule: "the same object bytes and configuration are given to senders through: in-memory buffer, Cursor, a real File, BufReader<File>, flute's create_from_file with and without RAM cache, and a seekable ChunkedReader returning short reads on a schedule (1 byte, 7, 10, 4096, mixed, random sizes); boundary lattice of object sizes x 5 FEC schemes x block byte sizes below and above 8 KiB x transfer counts 1-3 x interleave 1-3; oracle (metamorphic): the object packet sequences are byte-identical to the buffer sender's (same virtual instants, same TOI), transfers 2..n equal transfer 1 apart from the close-object flag, and the chunked source saw seek(Start(0)) before every transfer; (huge_stream) No-Code stream objects of 2^32-1 .. 2^33+5 bytes whose content is a function of the offset (full and short reads): every packet of the transfer is checked against the reference partition and the content at its offset, all source symbols once, close-object flag last; a case is one object x all sources, non-trivial when object packets were compared; distinct = object shape",
+        rule: "the same object bytes and configuration are given to senders through: in-memory buffer, Cursor, a real File, BufReader<File>, flute's create_from_file with and without RAM cache, and a seekable ChunkedReader returning short reads on a schedule (1 byte, 7, 10, 4096, mixed, random sizes, reads interrupted by ErrorKind::Interrupted once in five calls and three times in six); boundary lattice of object sizes x 5 FEC schemes x block byte sizes below and above 8 KiB x transfer counts 1-3 x interleave 1-3; oracle (metamorphic): the object packet sequences are byte-identical to the buffer sender's (same virtual instants, same TOI), transfers 2..n equal transfer 1 apart from the close-object flag, and the chunked source saw seek(Start(0)) before every transfer; (huge_stream) No-Code stream objects of 2^32-1 .. 2^33+5 bytes whose content is a function of the offset (full and short reads): every packet of the transfer is checked against the reference partition and the content at its offset, all source symbols once, close-object flag last; a case is one object x all sources, non-trivial when object packets were compared; distinct = object shape",
         assumptions: vec![
-            "sources that return errors or lie about their length are out of scope; stream sources cannot be combined with content encoding (flute refuses)".into(),
+            "sources that return errors (other than ErrorKind::Interrupted during transmission) or lie about their length are out of scope; an Interrupted read during the MD5 pass at creation makes create_from_stream fail loudly, so interrupting sources are used without MD5; stream sources cannot be combined with content encoding (flute refuses)".into(),
             "FDT packets are not compared (File order and MD5 are the same, but instance ids are irrelevant here)".into(),
             "the buffer sender's stream is itself judged by C08's slicing oracle".into(),
         ],
@@ -64,6 +64,13 @@ fn main() {
                 o.oti = Some(oti.clone());
                 o.max_transfer_count = transfers;
                 o.md5 = md5;
+                // an Interrupted error during the MD5 pass at object creation is reported to the caller (the object is
+                // refused, nothing is sent): outside the statement. Interrupted reads are exercised during transmission.
+                if let SourceSpec::Chunked(c) = &src {
+                    if c.contains(&CHUNK_EINTR) {
+                        o.md5 = false;
+                    }
+                }
                 o.source = src;
                 o
             };
@@ -90,6 +97,9 @@ fn main() {
                     sources.push((format!("chunked{:?}", c), SourceSpec::Chunked(c.clone())));
                 }
             }
+            // reads interrupted by signals (ErrorKind::Interrupted, to be retried): rarely, and many times per block
+            sources.push(("chunked+eintr/5".into(), SourceSpec::Chunked(vec![512, 512, 512, 512, CHUNK_EINTR])));
+            sources.push(("chunked+eintr-heavy".into(), SourceSpec::Chunked(vec![64, CHUNK_EINTR, CHUNK_EINTR, 64, CHUNK_EINTR, 1])));
             if len > 0 {
                 sources.push(("chunked_at[3]".into(), SourceSpec::ChunkedAt(vec![3, 500], rng.range(1, len as u64) as usize)));
                 sources.push(("chunked_at_end".into(), SourceSpec::ChunkedAt(vec![], len)));
@@ -159,6 +169,7 @@ fn main() {
                     }
                     cr.count("source_passes_observed", passes as u64);
                     cr.count("source_log_events", log.len() as u64);
+                    let md5 = mk(src.clone()).md5;
                     if len > 0 && passes < transfers as usize + md5 as usize {
                         cr.violations.push(Violation::new("no_reread_from_start", format!("source {}: {} complete passes seek(Start(0)) + contiguous reads of [0,{}) for {} transfers{} (first stray read {:?})", name, passes, len, transfers, if md5 { " + 1 MD5 pass" } else { "" }, stray)).with("source", kind.clone()).with("fec", fec.name()).witness(wit.clone()));
                     }
